@@ -220,6 +220,15 @@ def run(ctx):
             ctx.count("%s.by-name.%s" % (ep.name, case["class"].split(":")[0]))
             ok = refused(ctx, m, r2, ep.name + "-by-name", "ndjson", "%s reader %s (file-name constructor) fed %s" % (ep.name, reader, case["class"]),
                          dict(case, input_len=len(data), fmt=fmt, by_name=True)) and ok
+            if case["class"].startswith("neighbour") and case.get("writer") and "array-extent" not in case["class"]:
+                # the same process has read this stream with its own reader (a complete, successful copy) before the foreign reader is handed it
+                r3 = ep.copy(reader, fmt, "ndjson", data, first=(case["writer"], fmt, fp))
+                ctx.ev()
+                ctx.count("%s.after-own-reader.%s" % (ep.name, case["class"].split(":")[0]))
+                if "DRIVER-FIRST: rc=0" not in r3.stderr:
+                    raise Inconclusive("the stream's own reader did not copy it: %s" % r3.stderr[-300:])
+                ok = refused(ctx, m, r3, ep.name + "-after-own-reader", "ndjson", "%s reader %s fed %s after the same process read that stream with its own reader" % (ep.name, reader, case["class"]),
+                             dict(case, input_len=len(data), fmt=fmt, after_own_reader=True)) and ok
             os.unlink(fp)
         return ok
 
@@ -251,6 +260,47 @@ def run(ctx):
         refused(ctx, m3, r, ep.name, "ndjson", "Demo.Frames reader (added since v0) fed a stream of the imported Common.Frames", {"class": "imported-same-name"})
         m3.close(); mlib.close()
     imported_same_name()
+
+    # two models that differ only in a type that is reachable through the *second* instantiation of a generic type and nowhere else
+    def generic_second_instantiation(kind):
+        def mk(valty, tag):
+            pixel = Rec("Pixel", [("v", P("uint8"))])
+            voxel = Rec("Voxel", [("value", P(valty)), ("w", P("uint32"))])
+            if kind == "record":
+                g = Rec("Image", [("data", V(TP("T"))), ("n", P("int32"))], ("T",))
+            elif kind == "alias":
+                g = Al("Image", V(TP("T")), ("T",))
+            else:
+                g = Al("Image", U(((None, TP("T")), (None, P("string")))), ("T",))
+            if kind == "nested":
+                g = Rec("Image", [("data", V(TP("T"))), ("n", P("int32"))], ("T",))
+                holder = Rec("Holder", [("preview", N("Image", (N("Pixel"),))), ("volume", N("Image", (N("Voxel"),)))])
+                steps = [("h", N("Holder")), ("more", S(N("Holder")))]
+                defs = [pixel, voxel, g, holder]
+            else:
+                steps = [("preview", N("Image", (N("Pixel"),))), ("volume", N("Image", (N("Voxel"),))), ("more", S(N("Image", (N("Voxel"),))))]
+                defs = [pixel, voxel, g]
+            return Pkg("Scan", defs + [Proto("Acquisition", steps)], [], [], "scan_%s_%s" % (kind, tag))
+        pa, pb = mk("float32", "a"), mk("int32", "b")
+        ma = rt.prepare_model(ctx, "gen2_%s_a" % kind, pa, ["plain"])
+        mb = rt.prepare_model(ctx, "gen2_%s_b" % kind, pb, ["plain"])
+        if ma is None or mb is None:
+            raise Inconclusive("generic-second-instantiation model did not build")
+        A2 = pa.find("Acquisition")
+        vg = values.ValueGen(ma.codec, rng("C15g", kind), json_safe=True)
+        vals = vg.steps(A2, stream_len=2)
+        for fmt, data in (("bin", ma.codec.encode_stream(A2, ma.schema("Acquisition"), vals)),
+                          ("ndjson", ("\n".join(ma.codec.ndjson_lines(A2, ma.schema("Acquisition"), vals)) + "\n").encode())):
+            for ep in (rt.CppEndpoint(mb, "plain"), rt.PyEndpoint(mb)):
+                r = ep.copy("Acquisition", fmt, "ndjson", data)
+                ctx.ev()
+                ctx.count("generic-second-instantiation")
+                ctx.case(("generic-second-instantiation", kind, fmt, ep.name))
+                refused(ctx, mb, r, ep.name, "ndjson", "reader of a model whose Voxel.value is int fed a stream of the model whose Voxel.value is float (%s generic, Voxel reachable only through Image<Voxel>)" % kind,
+                        {"class": "generic-second-instantiation:" + kind, "fmt": fmt})
+        ma.close(); mb.close()
+    for kind in ("record", "alias", "union-alias", "nested"):
+        generic_second_instantiation(kind)
 
     # unrelated protocols of corpus models
     def corpus_pairs(key):
